@@ -220,11 +220,101 @@ theorem C18_total_kinds (b : Nat) (v : Val) (places : Option Val) :
   cases v <;> simp
   all_goals (repeat' split) <;> simp
 
+/-- **C18 (injective)**: two different in-range numbers never render to the same text. -/
+theorem C18_injective (b : Nat) (hb : Base b) (i j : Int) (hi : InRange b i) (hj : InRange b j)
+    (h : dec2base (.num (i : Rat)) none b = dec2base (.num (j : Rat)) none b) : i = j := by
+  have h2 := congrArg (fun v => base2dec v b) h
+  simp only [C18_roundtrip b hb i hi, C18_roundtrip b hb j hj] at h2
+  injection h2 with h3
+  exact Rat.intCast_inj.mp h3
+
+/-- **C18 (output alphabet)**: the text of an in-range number consists of upper-case digits of the base only, so it
+    is itself acceptable input of the inverse function. -/
+theorem C18_output_alphabet (b : Nat) (hb : Base b) (i : Int) (h : InRange b i) :
+    ∃ s, dec2base (.num (i : Rat)) none b = .str s ∧ 1 ≤ s.length ∧ s.length ≤ 10 ∧
+      ∀ c ∈ s, ∃ d, d < b ∧ c = digitChar d ∧ digitVal? b c = some d := by
+  obtain ⟨hb0, hb16⟩ := base_pos hb
+  refine ⟨render b (code b i), dec2base_int b i h, (render_length b _).2, (render_length b _).1, ?_⟩
+  intro c hc
+  unfold render at hc
+  obtain ⟨d, hd, rfl⟩ := List.mem_map.mp hc
+  have hlt := digitsK_lt b hb0 10 (code b i) d (stripZeros_mem _ d hd)
+  exact ⟨d, hlt, rfl, digitVal_digitChar b d hb16 hlt⟩
+
+/-- **C18 (decoding lands in the range)**: every text of 1..10 digits of the base decodes to a number of the signed
+    10-digit range — never to an error and never to a value outside it — so DEC2x accepts it back. -/
+theorem C18_decode_in_range (b : Nat) (hb : Base b) (s : List Char) (h1 : 1 ≤ s.length) (h10 : s.length ≤ 10)
+    (hleg : ∀ c ∈ s, digitVal? b c ≠ none) :
+    ∃ i : Int, InRange b i ∧ base2dec (.str s) b = .num (i : Rat) := by
+  obtain ⟨hb0, _⟩ := base_pos hb
+  have hm := mask_spec b hb
+  obtain ⟨n, hn⟩ := ofDigits_legal b s 0 hleg
+  have hlt := ofDigits_lt b s 0 n hn
+  have hpow : b ^ s.length ≤ b ^ 10 := Nat.pow_le_pow_right hb0 h10
+  have hn2 : n < 2 * mask b := by omega
+  have hne : s.isEmpty = false := by
+    cases s with
+    | nil => simp at h1
+    | cons c cs => rfl
+  refine ⟨(n : Int) - 2 * (((n / mask b) % 2 * mask b : Nat) : Int), ?_, ?_⟩
+  · have hmpos : 0 < mask b := by omega
+    unfold InRange
+    by_cases hlo : n < mask b
+    · have : n / mask b = 0 := Nat.div_eq_of_lt hlo
+      rw [this]; omega
+    · have : n / mask b = 1 := by apply Nat.div_eq_of_lt_le <;> omega
+      rw [this]; omega
+  · unfold base2dec
+    simp only [hne, Bool.false_eq_true, ↓reduceIte, h10, hn]
+
+/-- **C18 (round trip, text side)**: decoding a legal text and rendering the number again gives a text that decodes
+    to the same number (the canonical spelling: upper case, no leading zeros). -/
+theorem C18_roundtrip_text (b : Nat) (hb : Base b) (s : List Char) (h1 : 1 ≤ s.length) (h10 : s.length ≤ 10)
+    (hleg : ∀ c ∈ s, digitVal? b c ≠ none) :
+    base2dec (dec2base (base2dec (.str s) b) none b) b = base2dec (.str s) b := by
+  obtain ⟨i, hi, he⟩ := C18_decode_in_range b hb s h1 h10 hleg
+  rw [he, C18_roundtrip b hb i hi]
+
+/-- **C18 (places keeps the value)**: an in-range number padded to `places ≤ 10` digits still decodes to
+    itself. -/
+theorem C18_places_roundtrip (b : Nat) (hb : Base b) (i : Int) (h : InRange b i) (p : Nat)
+    (hp : p ≤ 10) (hw : (render b (code b i)).length ≤ p) :
+    base2dec (dec2base (.num (i : Rat)) (some (.num ((p : Int) : Rat))) b) b = .num (i : Rat) := by
+  obtain ⟨hb0, hb16⟩ := base_pos hb
+  have hpl := C18_places b i h (p : Int)
+  simp only at hpl
+  have hnot : ¬ ((p : Int) < ((render b (code b i)).length : Int)) := by omega
+  rw [hpl, if_neg hnot]
+  have hrt := C18_roundtrip b hb i h
+  rw [dec2base_int b i h] at hrt
+  -- the padded text has the same digit value and a length ≤ 10
+  have hlen := render_length b (code b i)
+  have hne : (render b (code b i)).isEmpty = false := by
+    cases hr : render b (code b i) with
+    | nil => rw [hr] at hlen; simp at hlen
+    | cons c cs => rfl
+  have hz := ofDigits_zeros b hb0 ((p : Int).toNat - (render b (code b i)).length) (render b (code b i))
+  unfold base2dec at hrt ⊢
+  simp only [hne, Bool.false_eq_true, ↓reduceIte, hlen.1] at hrt
+  have hne2 : (List.replicate ((p : Int).toNat - (render b (code b i)).length) '0' ++ render b (code b i)).isEmpty
+      = false := by
+    simp; intro _ ; cases hr : render b (code b i) with
+    | nil => rw [hr] at hne; simp at hne
+    | cons c cs => simp
+  have hlen2 : (List.replicate ((p : Int).toNat - (render b (code b i)).length) '0' ++ render b (code b i)).length
+      ≤ 10 := by
+    simp only [List.length_append, List.length_replicate]; omega
+  simp only [hne2, Bool.false_eq_true, ↓reduceIte, hlen2, hz]
+  exact hrt
+
 -- non-vacuity: concrete in-range instances of the hypotheses, and the boundary values
 example : InRange 2 (-512) ∧ InRange 2 511 ∧ ¬ InRange 2 512 ∧ Base 2 := by
   refine ⟨?_, ?_, ?_, Or.inl rfl⟩ <;> (unfold InRange; decide)
 example : dec2base (.num ((-3 : Int) : Rat)) none 2 = .str "1111111101".toList := by decide +kernel
 example : base2dec (.str " 1".toList) 2 = .err .num := by decide +kernel
 example : base2dec (.str "0b11".toList) 2 = .err .num := by decide +kernel
+example : (∀ c ∈ "1fF".toList, digitVal? 16 c ≠ none) ∧ 1 ≤ "1fF".toList.length := by decide
+example : base2dec (dec2base (.num ((5 : Int) : Rat)) (some (.num ((8 : Int) : Rat))) 2) 2 = .num 5 := by
+  decide +kernel
 
 end Pycel.Radix
